@@ -819,43 +819,88 @@ impl Sim<'_> {
                     }
                     if judge && !tainted {
                         let cands = w.candidates(&model, &def);
-                        let by_uri: BTreeMap<&str, &Candidate> = cands.iter().map(|c| (c.uri.as_str(), c)).collect();
-                        let applied: Vec<Candidate> = newly.iter().filter_map(|u| by_uri.get(u.as_str()).map(|c| (*c).clone())).collect();
-                        if applied.len() != newly.len() {
-                            return Err(viol("C19", "C19.group_not_candidate", "applied URI is not a candidate".into()));
+                        // several entries may name the same URI; the client marks one of them: every
+                        // assignment of applied URIs to entries is an acceptable outcome
+                        let mut options: Vec<Vec<Candidate>> = Vec::new();
+                        for u in &newly {
+                            let same: Vec<Candidate> = cands.iter().filter(|c| &c.uri == u).cloned().collect();
+                            if same.is_empty() {
+                                return Err(viol("C19", "C19.group_not_candidate", "applied URI is not a candidate".into()));
+                            }
+                            if same.len() > 1 {
+                                self.stats.bump("probe.C19.uri_shared_by_several_entries_applied");
+                            }
+                            options.push(same);
                         }
                         let prev = parse_font(&client.font);
-                        let (next_model, alts) = if applied.iter().any(|c| c.format != 3) {
-                            if applied.len() != 1 {
-                                return Err(viol("C18", "C18.invalidating_applied_alone", format!("{} URIs applied together with an invalidating patch", applied.len())));
-                            }
-                            match w.model_apply_table(&model, &applied[0]) {
-                                Ok(n) => (n, BTreeMap::new()),
-                                Err(why) => return Err(viol("C18", "C18.expected_error", format!("table-keyed patch applied although the specification requires failure: {why}"))),
-                            }
-                        } else {
-                            // all pending glyph-keyed URIs of the group must be applied in one pass
-                            match w.model_apply_glyph(&model, &applied) {
-                                Ok((n, alts)) => {
-                                    // short offsets that cannot hold the data: glyf must fail, gvar must widen
-                                    let mut n = n;
-                                    if !w.loca_long && padded_total(&n.glyf, true) > 0xFFFF * 2 && applied.iter().any(|c| patch_touches(w, &model, c, &GLYF)) {
-                                        return Err(viol("C18", "C18.expected_error", "glyf data beyond the short-offset limit was accepted".into()));
+                        let mut combos: Vec<Vec<Candidate>> = vec![vec![]];
+                        for o in &options {
+                            let mut next = Vec::new();
+                            for c in &combos {
+                                for x in o {
+                                    if next.len() < 16 {
+                                        let mut v = c.clone();
+                                        v.push(x.clone());
+                                        next.push(v);
                                     }
-                                    if let Some(gv) = &n.gvar {
-                                        if !n.gvar_long && padded_total(gv, true) > 0xFFFF * 2 && applied.iter().any(|c| patch_touches(w, &model, c, &GVAR)) {
-                                            n.gvar_long = true;
-                                            self.stats.bump("probe.C18.offset_width_widened");
-                                        }
-                                    }
-                                    (n, alts)
                                 }
-                                Err(why) => return Err(viol("C18", "C18.expected_error", format!("glyph-keyed patches applied although the specification requires failure: {why}"))),
                             }
-                        };
+                            combos = next;
+                        }
+                        let mut first_err: Option<V> = None;
+                        let mut accepted: Option<(ModelFont, BTreeMap<(Tag4, u32), Vec<Vec<u8>>>)> = None;
+                        for applied in &combos {
+                            let r: Result<(ModelFont, BTreeMap<(Tag4, u32), Vec<Vec<u8>>>), V> = (|| {
+                                let (next_model, alts) = if applied.iter().any(|c| c.format != 3) {
+                                    if applied.len() != 1 {
+                                        return Err(viol("C18", "C18.invalidating_applied_alone", format!("{} URIs applied together with an invalidating patch", applied.len())));
+                                    }
+                                    match w.model_apply_table(&model, &applied[0]) {
+                                        Ok(n) => (n, BTreeMap::new()),
+                                        Err(why) => return Err(viol("C18", "C18.expected_error", format!("table-keyed patch applied although the specification requires failure: {why}"))),
+                                    }
+                                } else {
+                                    // all pending glyph-keyed URIs of the group must be applied in one pass
+                                    match w.model_apply_glyph(&model, applied) {
+                                        Ok((n, alts)) => {
+                                            // short offsets that cannot hold the data: glyf must fail, gvar must widen
+                                            let mut n = n;
+                                            if !w.loca_long && padded_total(&n.glyf, true) > 0xFFFF * 2 && applied.iter().any(|c| patch_touches(w, &model, c, &GLYF)) {
+                                                return Err(viol("C18", "C18.expected_error", "glyf data beyond the short-offset limit was accepted".into()));
+                                            }
+                                            if let Some(gv) = &n.gvar {
+                                                if !n.gvar_long && padded_total(gv, true) > 0xFFFF * 2 && applied.iter().any(|c| patch_touches(w, &model, c, &GVAR)) {
+                                                    n.gvar_long = true;
+                                                }
+                                            }
+                                            (n, alts)
+                                        }
+                                        Err(why) => return Err(viol("C18", "C18.expected_error", format!("glyph-keyed patches applied although the specification requires failure: {why}"))),
+                                    }
+                                };
+                                if let Err((oracle, detail)) = compare_font(w, &new_font, &next_model, &alts, prev.as_ref()) {
+                                    return Err(viol("C18", &oracle, format!("round {round}, applied {newly:?}: {detail}")));
+                                }
+                                Ok((next_model, alts))
+                            })();
+                            match r {
+                                Ok(x) => {
+                                    accepted = Some(x);
+                                    break;
+                                }
+                                Err(e) => {
+                                    if first_err.is_none() {
+                                        first_err = Some(e);
+                                    }
+                                }
+                            }
+                        }
                         self.stats.bump("oracle.C18.ab.font_vs_model");
-                        if let Err((oracle, detail)) = compare_font(w, &new_font, &next_model, &alts, prev.as_ref()) {
-                            return Err(viol("C18", &oracle, format!("round {round}, applied {newly:?}: {detail}")));
+                        let Some((next_model, alts)) = accepted else {
+                            return Err(first_err.unwrap());
+                        };
+                        if next_model.gvar_long && !model.gvar_long {
+                            self.stats.bump("probe.C18.offset_width_widened");
                         }
                         // resolve alternatives to what the client actually chose, so that later rounds compare exactly
                         let mut nm = next_model;
